@@ -27,7 +27,8 @@ REQUIRED = ["assort_pairs_compared", "assort_pairs_nontrivial", "exhaustive_tabl
             "contest_identifier_is_not_a_string", "ballot_mappings_not_stored_in_preference_order",
             "ballots_listing_unranked_candidates_with_rank_0", "assorter_means_compared_with_generator_tallies",
             "assorter_means_compared:some_cards_lack_the_contest",
-            "reader_files_where_a_candidate_shares_its_name_with_the_contest_or_ballot", "reader_files_larger_than_4_MiB"]
+            "reader_files_where_a_candidate_shares_its_name_with_the_contest_or_ballot", "reader_files_larger_than_4_MiB",
+            "reader_files_without_a_final_line_break"]
 ASSUMPTIONS = ["rankings are duplicate-free (the property's quantifier)", "candidate ids are strings in both readers",
                "JSON mapping per the RAIRE documentation: WINNER_ONLY <-> NEB, IRV_ELIMINATION + already_eliminated <-> NEN"]
 EXHAUSTIVE = "c14.assort enumerates every partial ranking x ordered pair x eliminated set for each n listed in the counters"
@@ -219,7 +220,11 @@ def run_file(case, rec):
     try:
         path = os.path.join(d, "t.raire")
         with open(path, "w", encoding="utf-8") as f:
-            f.write("\n".join(lines) + "\n")
+            # (a quarter of the files end without a final line break: the last ballot line is a line all the same)
+            no_eol = (len(lines) * 7 + len(lines[-1])) % 4 == 0
+            f.write("\n".join(lines) + ("" if no_eol else "\n"))
+        if no_eol:
+            rec.count("reader_files_without_a_final_line_break")
         if any(ord(ch) > 127 for ln in lines for ch in ln):
             rec.count("reader_files_with_non_ascii_names")
         if any(t[0] in t[2:] or t[1] in t[2:] for t in (ln.split(",") for ln in lines[1 + int(lines[0]):])):
